@@ -60,6 +60,16 @@ def handleUnicode : List String → Option String
       some (" ".intercalate ((indentRun { cols := c, switchCase := k } [] ts).map fun x => match x with
         | some n => toString n | none => "-"))
     | _, _ => some "bad-op"
+  | ["indent.run2", cols, brace, sc, toks] =>
+    -- toks: s(tmt) o(pen plain) O(pen statement body) W(open switch body) c(lose) v(open) w(vclose) k(case)
+    match cols.toNat?, brace.toNat?, sc.toNat? with
+    | some c, some b, some k =>
+      let ts := toks.toList.filterMap fun ch => match ch with
+        | 's' => some ITok2.stmt | 'o' => some (ITok2.openK .plain) | 'O' => some (ITok2.openK .stmt) | 'W' => some (ITok2.openK .switch)
+        | 'c' => some ITok2.closeB | 'v' => some ITok2.vopen | 'w' => some ITok2.vclose | 'k' => some ITok2.caseL | _ => none
+      some (" ".intercalate ((indentRun2 { cols := c, brace := b, switchCase := k } [] ts).map fun x => match x with
+        | some n => toString n | none => "-"))
+    | _, _, _ => some "bad-op"
   | _ => none
 
 end Unc
